@@ -45,16 +45,16 @@ M_QUICK = [
     ("waiters_client", dict(MaxPing=2, MaxWC=1, MaxWClosed=1)),
     ("waiters_both_sides", dict(MaxPing=1, MaxWClosed=1, ServerApp="TRUE", MaxFault=0)),
     ("stream", dict(NChunk=2)),
-    ("routing_retry", dict(UseRetry="TRUE", MaxCid=2, MaxRebind=1, MaxFault=1)),
-    ("two_clients", dict(NC=2, MaxPing=1, MaxWClosed=1, MaxFault=0)),
+    ("routing_retry", dict(UseRetry="TRUE", MaxCid=2, MaxRebind=1, MaxFault=2, MaxWClosed=1)),
+    ("two_clients", dict(NC=2, MaxCid=1, Late="FALSE", MaxFault=0)),
 ]
 M_THOROUGH = [
     ("waiters_client", dict(MaxPing=2, MaxWC=1, MaxWClosed=1, MaxFault=2)),
     ("waiters_both_sides", dict(MaxPing=1, MaxWC=1, MaxWClosed=1, ServerApp="TRUE", MaxFault=1)),
     ("stream", dict(NChunk=2, MaxFault=2, MaxPing=1)),
     ("routing_retry", dict(UseRetry="TRUE", MaxCid=2, MaxRebind=1, MaxFault=2, MaxWClosed=1)),
-    ("two_clients", dict(NC=2, MaxPing=1, MaxWClosed=1, MaxCid=1, MaxFault=1, MaxDup=0)),
-    ("two_clients_retry", dict(NC=2, UseRetry="TRUE", MaxRebind=1, MaxFault=1, MaxWClosed=1)),
+    ("two_clients", dict(NC=2, MaxPing=1, MaxCid=1, Late="FALSE", MaxFault=0)),
+    ("two_clients_retry", dict(NC=2, UseRetry="TRUE", MaxRebind=1, MaxFault=1, Late="FALSE")),
 ]
 SIM = dict(NC=2, UseRetry="FALSE", MaxPing=2, MaxWC=1, MaxWClosed=1, NChunk=2, MaxCid=2, MaxDrop=2, MaxDup=2,
            MaxRebind=1, MaxFault=3, ServerApp="TRUE")
@@ -159,8 +159,10 @@ _A = None
 
 
 def _work(batch):
+    import sys
     from .. import c19_sim as S
     global _A
+    sys.unraisablehook = lambda *a: None      # coroutines of never-finishing waiters are destroyed at exit
     if _A is None:
         _A = S.load_modules()
     out = []
